@@ -27,7 +27,8 @@ import common
 import proofs
 from common import hx
 
-FILES = ["Model_diag.v", "Proofs_diag.v", "Model_diag_session.v", "Proofs_diag_session.v", "Entry_diag.v", "Extract_diag.v"]
+FILES = ["Model_diag.v", "Proofs_diag.v", "gen/Gen_diag.v", "Proofs_diag_inst.v", "Model_diag_session.v", "Proofs_diag_session.v",
+         "Entry_diag.v", "Extract_diag.v"]
 PROP = "Properties/C13.v"
 GROUP = "diag"
 AXES = "abc"
@@ -1054,7 +1055,8 @@ def search(chk, extra=()):
 def run(chk):
     ok, br = proofs.prove(chk, FILES, PROP, groups=(GROUP,), gen_modules=(GROUP,))
     chk.cov["trusted_base"] = common.TRUSTED_COMMON[:1] + common.TRUSTED_COMMON[2:] + [
-        "hand-written Model_diag.v (scatter matrix, P/G/R, coaxial index, Bingham mean, finite strain, angle helper), tied to the source by this differential run (tie H)",
+        "hand-written Model_diag.v (scatter matrix, P/G/R, coaxial index, Bingham mean, finite strain, angle helper): tie T at 1, 2, 3 grains -- gen/Gen_diag.v is regenerated from stats._scatter_matrix, diagnostics.symmetry_pgr / coaxial_index / bingham_average / finite_strain and utils.angle_fse_simpleshear on every run (translator/specs_diag.py) and Proofs_diag_inst.v proves generated = model for every input array, every axis code and every array-level LAPACK function; for any number of grains the list model is tied by this differential run (tie H)",
+        "translator/specs_diag.py: NumPy float64 semantics of array elements (arithmetic never raises), np.zeros / np.sum (left to right) / np.sqrt / np.arctan / np.rad2deg / 3x3 @ / transpose / slicing of object arrays, scipy.linalg.norm of a 3-vector = sqrt(x.x); the axis specifier as a symbolic string compared with literals through == (code = big-endian UTF-8 value - 97); la.eigvalsh / la.eigh become calls of a function parameter (one positional 3x3 argument, no keyword except finite_strain's own driver= passed through, else the translator fails closed); signatures and default arguments are checked with inspect; two additive clauses in translator/emit_coq.py (parameter kind `oracle`)",
         "LAPACK (scipy.linalg.eigh / eigvalsh) is an oracle: theorems assume vals_spec / eig_spec (ascending eigenvalues, characteristic polynomial, S v = lambda v, orthonormal v); the harness checks the residuals of every recorded call (<= 1e-10 |S|) and that the matrix given to LAPACK equals the model's matrix",
         "np.sum / matmul accumulate in a different order than the model's left-to-right sums (compared to 1e-10)",
         "hand-written Model_diag_session.v (call histories on live objects modified in place); tied by executing the same histories in one Python process on the same ndarray objects: matrices handed to LAPACK vs the extracted `run false`, every result vs the one-call entries on the current contents and vs the same call on a fresh copy; NumPy's in-place operations (slice assignment, matmul out=, *=) are trusted to do what the model's fill / rotate / permute / flip say (the contents are read back and the model's own state evolution is compared to 1e-10); float32 objects: sums accumulated in float32, compared to 1e-5",
